@@ -8,7 +8,7 @@ func init() {
 			{Workload: "C19.sched", Mode: "race", QuickB: 3, ThoroughB: 2},
 			{Workload: "C19.dl", Mode: "race", QuickB: 2, ThoroughB: 2},
 		},
-		Level: "exploration",
+		Level: "fault_enumeration",
 		Rule: "Source worlds: plain tries (6 key styles incl. equal sub-tries under several parents and embedded nodes), model-built states (equal storage roots / code / delegation blobs across accounts, twin leaves, empty accounts), states written by the real StateDB pipeline (state + validator + staking trie into one database) and a contract whose code equals the RLP of another account's storage node; each with a neighbouring root sharing most nodes. " +
 			"C19.sched drives trie.NewSync / state.NewStateSync with an adversarial responder (Missing(k), order, batching, duplicates, late, never+re-request, 6 corruptions offered under the keccak of the delivered bytes, unrequested blobs), periodic Commits, interruptions, aborted Commits, and replays a crash after individual Puts of every recorded write sequence (write order children-before-parents checked for EVERY prefix, sampled prefixes actually resumed to the same or the neighbouring root). " +
 			"C19.dl drives the production trieSync through downloader.New/RegisterPeer/DeliverNodeData/FetchVldTrie (+verif hooks for the state and staking entries) with 1-4 scripted peers (partial, corrupt, duplicate, stale, extra, empty, nil, leaving, double-delivering, late joiner, mid-way Cancel) and resumes after every error return. " +
